@@ -22,7 +22,36 @@ def input_strategy(flat=False, w1=2, w2=2, w3=3, max_stmts=25):
     s3 = gen_ssb.free_graphs()
     from vf.core import weighted
 
-    return weighted((w1, s1), (w2, s2), (w3, s3))
+    # sizes: a routine nested 10-22 blocks deep (ifs, switch cases, loops), an op at every level
+    s_deep = st.tuples(st.lists(st.sampled_from(["if", "if", "else", "switch", "forever"]), min_size=10, max_size=22), _gaps).map(lambda t: {"stratum": 1, "prog": _deep_program(t[0]), "gaps": t[1]})
+    total = w1 + w2 + w3
+    return weighted((w1 * 12, s1), (w2 * 12, s2), (w3 * 12, s3), (max(1, total // 2), s_deep)) if not flat else weighted((w1, s1), (w2, s2), (w3, s3))
+
+
+def _deep_program(kinds):
+    n = [0]
+
+    def op():
+        n[0] += 1
+        return {"k": "op", "name": f"dp_{n[0]}", "args": [], "ctx": None}
+
+    def cond():
+        n[0] += 1
+        return {"c": "op", "l": {"t": "const", "v": f"$D_{n[0]}"}, "op": "==", "r": {"t": "int", "v": n[0] % 7}, "value_of": False}
+
+    inner = [op()]
+    for k in reversed(kinds):
+        if k == "if":
+            inner = [op(), {"k": "if", "not": False, "conds": [cond()], "body": inner, "elifs": [], "else": None}]
+        elif k == "else":
+            inner = [{"k": "if", "not": False, "conds": [cond()], "body": [op()], "elifs": [], "else": inner}, op()]
+        elif k == "switch":
+            n[0] += 1
+            inner = [{"k": "switch", "head": {"h": "var", "v": {"t": "const", "v": f"$D_{n[0]}"}},
+                      "cases": [{"default": False, "head": {"ch": "val", "v": {"t": "int", "v": 1}}, "body": inner + [{"k": "ctl", "v": "break"}]}]}, op()]
+        else:
+            inner = [{"k": "forever", "body": [op()] + inner + [{"k": "ctl", "v": "break_loop"}]}]
+    return {"imports": [], "macros": [], "routines": [{"kind": "def", "id": 0, "name": None, "target": None, "alias": False, "body": inner + [{"k": "ctl", "v": "end"}]}]}
 
 
 def materialise(case, stt):
